@@ -171,6 +171,35 @@ def torn_read(ck, ctx, rule="torn-read"):
         eof_t = [tt for (x, lab) in g_eof for tt in cfg.edge_targets(x, lab)]
         r_eof = cfg.reach_avoid(eof_t)
         ck.ob(rule, "%s#%d|eof-is-clean-end" % (cal.split("::")[-1], i), bool(eof_t) and not any(y in err_rets or y in resid for y in r_eof), "the UnexpectedEof edge ends the load with Ok", span=t["loc"], fn=b.nname)
+    # a helper that classifies the error must be exact: true iff the error is an io::Error of kind UnexpectedEof
+    hb = F.body("db::is_unexpected_eof")
+    if hb is not None and any(callee_of(t) == "db::is_unexpected_eof" for _, t in b.calls()):
+        from n2sa.flagint import FlagInt, OPTION
+
+        def is_eof_const(v):
+            v = v[1] if v is not None and v[0] == "cref" else v
+            return v is not None and v[0] == "en" and v[1] == "std::io::ErrorKind" and v[2] == "UnexpectedEof"
+
+        def hook(fi, bi, t, callee, args, vals, ghost):
+            if callee.endswith("downcast_ref"):
+                io = "std::io::Error" in " ".join(t["callee"].get("generics") or [])
+                return [(("en", OPTION, "None", ()), dict(ghost, not_io=True)), (("en", OPTION, "Some", None), dict(ghost, io=io))]
+            if callee.endswith("ErrorKind as std::cmp::PartialEq>::eq") or callee.endswith("ErrorKind as std::cmp::PartialEq>::ne") or (callee == "std::cmp::PartialEq::ne" and len(args) == 2):
+                if not any(is_eof_const(a) for a in args):
+                    return [(("b", True), dict(ghost, unknown_cmp=True)), (("b", False), dict(ghost, unknown_cmp=True))]
+                ne = callee.endswith("ne")
+                return [(("b", not ne), dict(ghost, eof=True)), (("b", ne), dict(ghost, other=True))]
+            return None
+
+        fi = FlagInt(F, hb, hook).run()
+        bad = []
+        for g, rv in fi.rets:
+            g = dict(g)
+            want = bool(g.get("eof")) and g.get("io", False) and not g.get("unknown_cmp")
+            if rv != ("b", want):
+                bad.append("%s -> %s" % (sorted(k for k, v in g.items() if v), rv[1] if rv and rv[0] == "b" else "undetermined"))
+        ck.ob(rule, "is_unexpected_eof|exact", len(fi.rets) >= 3 and not bad and not fi.capped, "is_unexpected_eof answers true exactly for an io::Error whose kind is UnexpectedEof (%d abstract returns; %s)" % (len(fi.rets), bad or "all consistent"), span=hb.loc, fn=hb.nname)
+        ck.functions.add(hb.nname)
     # the EOF tests examine the error of the read they follow
     # inner readers preserve the io::Error kind (return io::Result, propagate with `?`)
     for fn in sorted(n for n in F.bodies if n.startswith("db::Reader::read_") and F.bodies[n].kind != "promoted"):
@@ -581,6 +610,10 @@ def narrowing(ck, ctx, rule="narrowing"):
                 ok, why = _bounded(ctx, F, b, bi, src, lim)
                 tag = "len(%s)" % ("outs" if "outs" in repr(src) else "discovered_ins" if "discovered_ins" in repr(src) else "str" if "str::len" in repr(src) else "?")
                 ck.ob(rule, "%s|cast#%d:%s->%s:%s" % (fn, k, frm, to, tag), ok, "`%s as %s` in %s %s" % (what, to, fn, "is bounded: " + why if ok else "has no dominating bound < %d: values wrap silently" % lim), span=s.get("loc"), fn=fn)
+                if tag == "len(str)":
+                    # the length word of a path record doubles as the record tag: the length itself must stay below the tag bit
+                    ok2, why2 = _bounded(ctx, F, b, bi, src, TAG)
+                    ck.ob(rule, "%s|path-length-below-tag" % fn, ok2, "a path record's length word never has the tag bit 0x8000 set: %s" % (why2 if ok2 else "no dominating guard implies len < 0x8000 (a path of exactly 32768 bytes would be read back as a build record)"), span=s.get("loc"), fn=fn)
                 k += 1
     ck.floor("narrowing casts in db writers", found, 3)
     # write_id bound must be exactly the 3-byte capacity
@@ -727,6 +760,11 @@ def attribution(ck, ctx, rule="attribution"):
         starts = [tt for (x, lab) in it_some if cfg.enclosing_loop_header(x) == hdr or x == hdr for tt in cfg.edge_targets(x, lab)]
         r = cfg.reach_avoid(starts, avoid_blocks=[bb])
         ck.ob(rule, "parse-through#%d" % i, hdr is not None and hdr not in r, "every iteration reads its id (records are parsed through even when unusable)", span=b.blocks[bb]["term"]["loc"], fn=RB)
+    # and no iteration is skipped: the id loops end only at exhaustion or by `?` (a `break` would leave the rest of the record unread
+    # and every later record misaligned)
+    for i, bb in enumerate(ids):
+        bad = C.loop_no_early_exit(ctx, b, bb)
+        ck.ob(rule, "parse-through#%d|loop-complete" % i, bad == [], "the id loop is left only when its range is exhausted or by `?` (other exits %s)" % bad, span=b.blocks[bb]["term"]["loc"], fn=RB)
     # ids map through the table built from path records
     C.single_writer(ck, ctx, rule, "db::IdMap", "fileids", ["db::Reader::read_path", "db::Writer::ensure_id"])
     C.single_writer(ck, ctx, rule, "db::IdMap", "db_ids", ["db::Reader::read_path", "db::Writer::ensure_id"])
